@@ -90,11 +90,6 @@ func genPosCase(r *Rng, alg string) posCase {
 	}
 	grains := []float64{8, 8, 0.25, 8.0 / (1 << 30), 8 * (1 << 20)} // also very small and very large units (C17)
 	g := grains[r.Intn(len(grains))]
-	if alg == "ns" {
-		// the MODEL of this positioner still builds the layer slices of the auxiliary graph (one per unit of x), as the
-		// code did before fix 6bc1366: keep the coordinates small enough for the kernel
-		g = []float64{8, 0.25}[r.Intn(2)]
-	}
 	wide := r.Bool(50)
 	for l := 0; l < nl; l++ {
 		for i := 0; i < widths[l]; i++ {
